@@ -59,6 +59,15 @@ let () =
   port "splitlines" (fun r -> wr_strs (splitlines (rd_str r)));
   port "escape_word" (fun r -> wr_str (escape_word (rd_str r)));
   port "opens_block_word" (fun r -> wr_bool (opens_block_word (rd_str r)));
+  port "read_code_span" (fun r -> wr_opt (wr_pair wr_str wr_str) (read_code_span (rd_str r)));
+  port "read_destination" (fun r -> wr_opt (wr_pair wr_str wr_str) (read_destination (rd_str r)));
+  port "read_title" (fun r -> wr_opt (wr_pair wr_str wr_str) (read_title (rd_str r)));
+  port "read_fenced" (fun r ->
+    wr_opt (fun (f, rest) -> wr_n f.f_char; wr_int (int_of_nat f.f_len); wr_str f.f_info; wr_strs f.f_body; wr_strs rest)
+      (read_fenced (rd_strs r)));
+  port "render_code_span" (fun r -> wr_str (render_code_span (rd_str r)));
+  port "link_destination" (fun r -> wr_str (link_destination (rd_str r)));
+  port "normalize_title_quotes" (fun r -> wr_str (normalize_title_quotes (rd_str r)));
   port "wrap_words" (fun r ->
     let md = rd_bool r in let w = rd_z r in let c0 = rd_z r in let c1 = rd_z r in
     let ws = rd_strs r in
